@@ -23,6 +23,13 @@
               depend on them.  derive_cert computes the end from the start (tz2 = tz); new_cert takes both
               datetimes, and they may be of different kinds (naive start, aware end, ...)
 
+     zone     "" or an IANA zone name (DST-bearing): the caller expresses `start` in that zone instead of the fixed
+              offset tz.  The requested lifetime is a number of SECONDS, so the end instant is start + dur seconds
+              of elapsed time whatever the zone's clock does in between
+     host     the time zone of the HOST PROCESS (TZ / tzset) while the function runs.  A naive datetime is UTC by
+              the library's convention (self_sign's epoch, the CLI), not host-local time, so the expected
+              certificate does not depend on host either
+
    expected certificate = Data packet CertCfg(q) (NdnPackets!Final): name = keyname / issuer / version,
    MetaInfo{ContentType = KEY, FreshnessPeriod = 3 600 000}, Content = public key,
    SignatureInfo{type, KeyLocator = signer's, ValidityPeriod{NotBefore, NotAfter}}, SignatureValue of the
